@@ -397,10 +397,11 @@ func TestVerifC15Sync(t *testing.T) {
 type c15OutageCase struct {
 	Op     string `json:"op"`
 	Method string `json:"method"`
+	Fast   bool   `json:"fast"` // the unreachable primary refuses at once instead of hanging
 }
 
 var c15MutatingOps = []string{"u2f-manage", "totp-manage", "u2f-register-request", "u2f-register-response", "webauthn-register-begin",
-	"totp-generate", "totp-validate-new", "add-user", "bootstrap-otp-admin", "bootstrap-otp-auth", "login", "login-no2fa", "totp-auth", "profile-view"}
+	"totp-generate", "totp-validate-new", "add-user", "bootstrap-otp-admin", "bootstrap-otp-auth", "login", "login-no2fa", "totp-auth", "profile-view", "signed-read", "signed-read"}
 
 // c15Mailer accepts every mail (self-service bootstrap OTP needs a mailer).
 type c15Mailer struct{ sent int }
@@ -408,7 +409,7 @@ type c15Mailer struct{ sent int }
 func (m *c15Mailer) SendMail(from string, to []string, msg []byte) error { m.sent++; return nil }
 
 func c15OutageCheck(c c15OutageCase) *vResult {
-	res := &vResult{Desc: vJoin(c.Op, c.Method), NonTrivial: true}
+	res := &vResult{Desc: vJoin(c.Op, c.Method, fmt.Sprint(c.Fast)), NonTrivial: true}
 	w := vNewWorld(vWorldOpts{WebUIBackends: []string{"password"}, CertBackends: []string{"password", "TOTP"},
 		Users: map[string]string{vUserAlice: vPwAlice, "root-admin": "x", "carol": "carol-pw"}, AdminUsers: []string{"root-admin"}, EnableLocalTOTP: true, EnableBootstrapOTP: true})
 	defer w.Close()
@@ -433,11 +434,17 @@ func c15OutageCheck(c c15OutageCase) *vResult {
 		p.PendingTOTPSecret = &secret
 		state.SaveUserProfile(vUserAlice, p)
 	}
+	// a signed record (what the LDAP backend keeps of a confirmed password)
+	const c15SignedPayload = "verif-signed-payload-c15"
+	if err := state.UpsertSigned(vUserAlice, 1, time.Now().Add(2*time.Hour).Unix(), c15SignedPayload); err != nil {
+		panic(err)
+	}
 	if err := copyDBIntoSQLite(state.db, state.cacheDB, "sqlite"); err != nil {
 		panic(err)
 	}
 	// primary outage: reads hang, writes fail (wrapping SQL driver)
 	beforeP, beforeC := c15Dump(w.vRawPrimary(), false), c15Dump(state.cacheDB, false)
+	w.vPrimaryOutageFlavour(c.Fast)
 	w.vPrimaryOutage(true)
 	var req *http.Request
 	var handler http.HandlerFunc
@@ -502,6 +509,19 @@ func c15OutageCheck(c c15OutageCase) *vResult {
 		handler = state.profileHandler
 		mutating = false
 	}
+	if c.Op == "signed-read" {
+		// the synchronised signed record is readable from the cache
+		mutating = false
+		req = vNewRequest("GET", "/", nil)
+		handler = func(rw http.ResponseWriter, _ *http.Request) {
+			ok, data, err := state.GetSigned(vUserAlice, 1)
+			if err != nil || !ok || data != c15SignedPayload {
+				http.Error(rw, fmt.Sprintf("GetSigned during the outage: ok=%v err=%v data=%q", ok, err, data), 500)
+				return
+			}
+			rw.WriteHeader(200)
+		}
+	}
 	if c.Op != "login" && c.Op != "login-no2fa" {
 		w.applyCred(req, vCred{Kind: "cookie", Bits: bits}, user)
 	}
@@ -541,8 +561,8 @@ func c15OutageCheck(c c15OutageCase) *vResult {
 
 func TestVerifC15Outage(t *testing.T) {
 	vRunRapid(t,
-		"rapid: one request of each kind (10 profile-changing operations, login with and without registered second factor (self-service bootstrap OTP enabled), TOTP verification, profile view) x method while the primary times out (cache synchronised just before); every case is non-trivial; distinct = (operation, method)",
+		"rapid: one request of each kind (10 profile-changing operations, login with and without registered second factor (self-service bootstrap OTP enabled), TOTP verification, profile view, read of a synchronised signed record) x method x {the unreachable primary lets reads hang and fails writes | refuses every operation at once} (cache synchronised just before); every case is non-trivial; distinct = (operation, method)",
 		func(t *rapid.T) c15OutageCase {
-			return c15OutageCase{Op: rapid.SampledFrom(c15MutatingOps).Draw(t, "op"), Method: rapid.SampledFrom([]string{"GET", "POST"}).Draw(t, "method")}
+			return c15OutageCase{Op: rapid.SampledFrom(c15MutatingOps).Draw(t, "op"), Method: rapid.SampledFrom([]string{"GET", "POST"}).Draw(t, "method"), Fast: rapid.Bool().Draw(t, "fast")}
 		}, c15OutageCheck)
 }
